@@ -35,7 +35,8 @@ TRUSTED = [
     "(this harness): construct / setattr / assign_path / parse_into / enc_obj / is_set / read are evaluated by vm_compute on the "
     "histories the implementation ran and compared with snapshots of the raw state of the real objects, bytes(m), Message.is_set "
     "and the attribute values",
-    "specification coq/Spec/C06Wire.v (record grammar over Spec/Varint.v, has_record, last_member, proto3_default): its Python "
+    "specification coq/Spec/C06Wire.v, C06Zero.v (record grammar over Spec/Varint.v, has_record, last_member, proto3_default, presence "
+    "classes of a field, zero values of the scalar types): its Python "
     "twin in this harness is validated against google.protobuf HasField / WhichOneof (T3) and the Coq functions are evaluated on "
     "the same record lists (vm_compute) and compared with the twin",
     "translator harness/gen_tables.py (type tables reflected into coq/gen/Tables.v)",
@@ -912,6 +913,20 @@ def random_history(schema, sref, rng):
 CORPUS = os.path.join(lib.VERIF, "corpus", "C06.json")
 
 
+def compare(ctx, name, pairs, chunk, prelude):
+    """lib.coq_compare; when another check rebuilt shared .vo files between our build and this evaluation
+    ("inconsistent assumptions"), rebuild our targets and try again"""
+    for attempt in range(3):
+        try:
+            return lib.coq_compare(ctx, name, IMPORTS, pairs, chunk=chunk, prelude=prelude)
+        except RuntimeError as e:
+            if "inconsistent assumptions" in str(e) and attempt < 2:
+                ctx.notes.append(f"{name}: shared .vo files changed under the evaluation (concurrent build); rebuilt and retried")
+                lib.build(ctx, ["Properties/C06.vo"] + EXTRA_TARGETS)
+                continue
+            raise
+
+
 def in_range_history(H):
     return True
 
@@ -1110,18 +1125,18 @@ def run(ctx):
                 spec_pairs.append((f"(c06_spec_obs sc{si} {NBUILTIN + ci}%nat {lib.coq_bytes(bs)})", exp))
 
     # ------------------------------------------------------------------ evaluate the model
-    bad = lib.coq_compare(ctx, "c06wf", IMPORTS, wf_pairs, chunk=4, prelude=prelude)
+    bad = compare(ctx, "c06wf", wf_pairs, 4, prelude)
     for i in bad:
         ctx.fail("corr", "a generated schema does not satisfy wf_schema / std_builtins (theorem hypotheses not met by the generator)",
                  input={"schema": srefs[i]}, no_input=True, theorem_or_correspondence="wf_schema on generated schemas")
-    bad = lib.coq_compare(ctx, "c06", IMPORTS, pairs, chunk=90, prelude=prelude)
+    bad = compare(ctx, "c06", pairs, 90, prelude)
     for i in bad[:20]:
         si, H, cell = meta[i]
         H = {k: v for k, v in H.items() if not k.startswith("_")}
         ctx.fail("corr", "model (construct / assign_path / parse_into / enc_obj / is_set / read) and implementation disagree",
                  input={"history": H, "cell": cell, "model_expr": pairs[i][0][:3000], "implementation": pairs[i][1][:3000]},
                  theorem_or_correspondence="T2 Model/Object.v Encode.v Decode.v C06Obs.v <-> betterproto")
-    bad = lib.coq_compare(ctx, "c06spec", IMPORTS, spec_pairs, chunk=60, prelude=prelude)
+    bad = compare(ctx, "c06spec", spec_pairs, 60, prelude)
     for i in bad[:10]:
         ctx.fail("corr", "Spec/C06Wire.v (parse_records / has_record / last_member) disagrees with its Python twin",
                  input={"model_expr": spec_pairs[i][0][:2000], "twin": spec_pairs[i][1][:2000]},
@@ -1149,7 +1164,8 @@ def finish(ctx):
         "Coq theorems over the Gallina mirror of Message.__post_init__/__getattribute__/__setattr__/dump/load + an independent record-level "
         "specification of presence; executable correspondence (vm_compute) with the implementation; reference comparison (google.protobuf)",
         ASSUMPTIONS, TRUSTED, RULE,
-        extra_cov={"explanation": "theorems are unbounded (all well-formed schemas, all values, all byte strings of complete records); the "
+        extra_cov={"matrix_cells_enumerated": sum(v for k, v in ctx.dist.items() if k.startswith("cell:")),
+                   "explanation": "theorems are unbounded (all well-formed schemas, all values, all byte strings of complete records); the "
                                   "kind x state x way matrix is enumerated exhaustively every run, combinations and decoder streams are sampled"})
 
 
